@@ -14,17 +14,15 @@ GROUPS = {
             ["models.py:LabelEncoder", "models.py:ContinuousMultiVariable", "models.py:DiscreteMultiVariable", "models.py:PermutationVariable",
              "models.py:MultiObjectiveVariable", "models.py:BinaryVariable"]),
     "T14": ("C14 (and C01/C02/C05/C09): the task's description of its search space",
-            ["models.py:Task.__init__", "models.py:Task.validate_objective_weights", "models.py:Task.get_variables", "models.py:Task.get_bounds",
-             "models.py:Task.correct_solution", "models.py:Task.empty_solution", "models.py:Task.transform_solution",
+            ["models.py:Task.__init__", "models.py:Task.validate_objective_weights", "models.py:Task.empty_solution",
              "models.py:ContinuousMultiVariable", "models.py:DiscreteMultiVariable", "models.py:MultiObjectiveVariable", "models.py:BinaryVariable"]),
     "T19": ("C19: the parameter grid and the tuner", ["hypertuner.py:ParameterGrid", "hypertuner.py:HyperTuner", "enums.py:TaskType", "enums.py:ModeSolver"]),
-    "T20": ("C20: the parts of Multitask that are not translated (`__check_input__` is: R20)",
-            ["multitask.py:Multitask.__init__", "multitask.py:Multitask.__check_modes__", "multitask.py:Multitask.export_results", "multitask.py:Multitask.__run__",
-             "multitask.py:Multitask.execute", "multitask.py:Multitask.__parallelize__", "multitask.py:Multitask.__get_mode__", "enums.py:ModeSolver", "enums.py:ExportType"]),
-    "T02": ("C02/C04/C06/C11 and the loop: what is left of agent creation and the configuration / agent records",
+    "T20": ("C20: the parts of Multitask that are not translated (`__check_input__`, `__check_modes__`, `__get_mode__` are: R20)",
+            ["multitask.py:Multitask.__init__", "multitask.py:Multitask.export_results", "multitask.py:Multitask.__run__",
+             "multitask.py:Multitask.execute", "multitask.py:Multitask.__parallelize__", "enums.py:ModeSolver", "enums.py:ExportType"]),
+    "T02": ("C02/C04/C06/C11 and the loop: what is left of agent creation (`_generate_agents` / `_init_population` are translated: R11) and the configuration / agent records",
             ["models.py:EarlyStopping", "models.py:BaseOptimizationConfig", "models.py:Agent", "helpers.py:calculate_fitness", "helpers.py:average_fitness",
-             "helpers.py:get_pool_executor", "abstract.py:OptimizationAbstract.__init__", "abstract.py:OptimizationAbstract._generate_agents",
-             "abstract.py:OptimizationAbstract._init_population"]),
+             "helpers.py:get_pool_executor", "abstract.py:OptimizationAbstract.__init__"]),
 }
 for name, (doc, keys) in GROUPS.items():
     rows = ",\n".join(f'      ("{k}", "{pins[k]}")' for k in keys)
